@@ -433,9 +433,12 @@ pub fn run_scenario(scn: &Scn, seen: &mut Seen) -> Outcome {
             after = engine::open_fds();
         }
         if after > fds_before {
+            let what: Vec<String> = std::fs::read_dir("/proc/self/fd")
+                .map(|d| d.filter_map(|e| e.ok()).filter_map(|e| std::fs::read_link(e.path()).ok().map(|t| t.to_string_lossy().to_string())).collect())
+                .unwrap_or_default();
             fails.push(fail(
                 "C01:fd-leak",
-                format!("{fds_before} file descriptors before the server started, {after} after it stopped and all clients closed"),
+                format!("{fds_before} file descriptors before the server started, {after} after it stopped and all clients closed; open now: {what:?}; threads now {}", engine::thread_count()),
             ));
         }
     } else if fails.is_empty() {
